@@ -114,7 +114,7 @@ Section FixedPoint.
       at_coef RO f x n p off beta = Some q /\
       newton_system RO alpha x y p w beta q = Some (a, b) /\
       solve a b = Some s /\ length s = p /\ beta' = map2 Rminus beta s /\
-      penalized_deviance RO f y (q_mu q) alpha beta' = Some pd /\
+      weighted_penalized_deviance RO f y (q_mu q) w alpha beta' = Some pd /\
       conv = has_converged RO pd pdev tol /\
       (forall j, (j < p)%nat -> matvec a p s j = - penalised_score f x n p y w (offs off) alpha beta j) /\
       (forall j k, (j < p)%nat -> (k < p)%nat ->
@@ -126,7 +126,7 @@ Section FixedPoint.
     rewrite Hs. cbn [bind].
     destruct (solve a b) as [s|] eqn:Hsol; [|discriminate]. cbn [bind].
     destruct (vbin (sub RO) beta s) as [c|] eqn:Hv; [|discriminate]. cbn [bind].
-    destruct (penalized_deviance RO f y (q_mu q0) alpha c) as [d|] eqn:Hpd; [|discriminate]. cbn [bind].
+    destruct (weighted_penalized_deviance RO f y (q_mu q0) w alpha c) as [d|] eqn:Hpd; [|discriminate]. cbn [bind].
     intros [= <- <- <- <-].
     destruct (solve_ok a b s Hsol) as (Ls & Es). rewrite Lb in Ls, Es.
     apply vbin_inv in Hv. destruct Hv as (_ & ->).
@@ -258,7 +258,7 @@ Section Loop.
     destruct (newton_system O alpha x y p w coef q0) as [[a b]|]; [|discriminate]. cbn [bind].
     destruct (solve a b) as [s|]; [|discriminate]. cbn [bind].
     destruct (vbin (sub O) coef s) as [c|]; [|discriminate]. cbn [bind].
-    destruct (penalized_deviance O f y (q_mu q0) alpha c) as [d|]; [|discriminate]. cbn [bind].
+    destruct (weighted_penalized_deviance O f y (q_mu q0) w alpha c) as [d|]; [|discriminate]. cbn [bind].
     intros [= <- <- <- <-]. reflexivity.
   Qed.
 
